@@ -52,6 +52,10 @@ pub trait ReadPacket: Packet + WireSpec {
     ;
 }
 
+/// Decoding is a deterministic function of the bytes in the buffer. Used only by the connection-level units
+/// (the interface variant of `ReadPacket::read_from_buffer` adds `r == decode_of::<Self>(rest)` as an assumption).
+pub uninterp spec fn decode_of<T>(body: Seq<u8>) -> Result<T, Error>;
+
 /// frame = VarInt(length of id + body) ++ VarInt(id) ++ body
 pub open spec fn frame(id: VarInt, body: Seq<u8>) -> Seq<u8> {
     enc_varint((enc_varint(id).len() + body.len()) as i32) + (enc_varint(id) + body)
